@@ -969,7 +969,10 @@ class Circuit(Function):
             else:
                 self._gate_to_users[gate_label].extend(list_users)
 
+        # a new cycle, if any, passes through one of the inserted gates, which
+        # are not necessarily reachable from the outputs of the circuit
         check_circuit_has_no_cycles(self)
+        check_circuit_has_no_cycles(self, list(subcircuit.gates))
 
         return self
 
